@@ -64,6 +64,9 @@ func init() {
 		"blobOpen":     pBlobOpen,
 		"blobIs":       pBlobIs,
 		"envChan":      pEnvChan,
+		"envChanDyn": func(in *Interp, fn *ssa.Function, a []Value) Value {
+			return &ChanObj{Env: tagOf(a[0]), EnvReady: a[1], EnvTake: a[2], ID: in.newID()}
+		},
 		"mapReads":     func(in *Interp, fn *ssa.Function, a []Value) Value { return mkBV(64, uint64(a[0].(*MapObj).ReadCnt)) },
 		"mapWrites":    func(in *Interp, fn *ssa.Function, a []Value) Value { return mkBV(64, uint64(a[0].(*MapObj).WriteCnt)) },
 		"opaqueErr":    func(in *Interp, fn *ssa.Function, a []Value) Value { return in.makeErrorString(mkStr("opaque:" + tagOf(a[0]))) },
